@@ -56,7 +56,7 @@ def model_phase(q):
     for fmt in ("mus", "xmi"):
         tier = "quick" if q else "thorough"
         r = vc.run_tlc("ConvImplMC", cfg="ConvImplMC_%s_%s.cfg" % (fmt, tier), timeout=300 if q else 3000, heap="8g", workers=jobs(),
-                       tag="ConvImplMC-" + fmt)
+                       tag="ConvImplMC-" + fmt, extra=["-noGenerateSpecTE"])
         r.scope = {"module": "ConvImplMC", "format": fmt,
                    "alphabet_1": {"what": "ConvMC enumeration", "symbols": 42 if fmt == "mus" else 33, "max_events": (3 if fmt == "mus" else 2) if q else 3},
                    "alphabet_2": {"what": "controller / status table, range extremes, multi-byte delays", "symbols": 92 if fmt == "mus" else 78,
@@ -124,6 +124,10 @@ def relabel_crashes(failures, histories):
             # negative, its output loop never terminates inside temp_buffer[32] (cvt_mus2mid.hpp:211 from :337);
             # spec/Mus2Mid.tla predicts it (result `crash`)
             f.what = "mus-delay-overflow-crash"
+            f.event = "Cvt" if any(c.get("e") == "Cvt" for c in histories[f.history][:f.step + 1]) else "Load"
+            f.detail = ("stack-buffer-overflow in mus2mid_writevarlen (src/cvt_mus2mid.hpp:211 called from Convert_mus2midi :337): a MUS delay of "
+                        ">= 2^28 ticks (five base-128 digits) makes its int32 scratch value negative and the output loop runs past temp_buffer[32] | "
+                        + (f.detail or "")[-400:])
         elif f.prop == "CRASH" and 0 <= f.history < len(histories):
             h = histories[f.history]
             if any(c.get("e") == "Mus" and any(e.get("k") == "sys" for e in c.get("ev", [])) for c in h):
